@@ -179,7 +179,8 @@ theorem repair_no_panic (h : Header) (hwf : h.WF) (px : PixelInfo) (hp : px.WF) 
     ∀ L, layoutOf h.toLayoutHeader px = some (.ok L) → ∃ n, L.dataLenP = some n ∧ n < U64 :=
   Header.layoutLen_no_panic hwf hp
 
-/-- every pixel info of the pinned tables is well-formed (block sizes 1..15 etc.) -/
+/-- every pixel info of the format tables (rows translated from the source on every run; the name is historical) is
+well-formed (block sizes 1..15 etc.) -/
 theorem pinned_pixel_infos_wf :
     (∀ r ∈ dxgiRows, ∀ px, r.px = some px → px.WF) ∧
     (∀ f ∈ Format.all, ∀ px, f.pixelInfo = some px → px.WF) := by
